@@ -572,8 +572,41 @@ def prove_download_path(src_root, ex: Explorer):
     ex.run(unique, 'unique')
 
 
+def prove_window(src_root, ex: Explorer):
+    """Pin of the check-then-create window (the recorded finding C09.prepare.unique is that this window exists at all).  Whole-tree scan:
+    the local path is chosen in ONE place - _prepare_download_path, called by _download_file only - and between that call and the
+    creation of the file (aiofiles.open) _download_file suspends on nothing but the state transition to DOWNLOADING.  A change that
+    chooses the path earlier (before the offset is negotiated, say) widens the window in which another download can be given the same
+    path and is reported here."""
+    import ast
+    ctx = Ctx(ex, [])
+    src, _ = source(src_root)
+    callers, awaits_between = [], None
+    for mod, qn, node in src.functions():
+        for sub in ast.walk(node):
+            if isinstance(sub, ast.Call) and isinstance(sub.func, ast.Attribute) and sub.func.attr == '_prepare_download_path':
+                callers.append(qn)
+        if qn.endswith('TransferManager._download_file'):
+            seq = []
+            for sub in ast.walk(node):
+                if isinstance(sub, ast.Await):
+                    seq.append((sub.lineno, 'await', ast.unparse(sub.value)[:60]))
+                if isinstance(sub, ast.Call) and ast.unparse(sub.func) == 'aiofiles.open':
+                    seq.append((sub.lineno, 'open', ''))
+            seq.sort()
+            idx_p = [i for i, s_ in enumerate(seq) if '_prepare_download_path' in s_[2]]
+            idx_o = [i for i, s_ in enumerate(seq) if s_[1] == 'open']
+            if idx_p and idx_o:
+                awaits_between = [s_[2] for s_ in seq[idx_p[0] + 1:idx_o[0]] if s_[1] == 'await']
+    # awaits inside the except OSError handler of the preparation do not lie on the path to open(): only count those after it
+    on_path = [a for a in (awaits_between or []) if 'disconnect' not in a and '.fail(' not in a]
+    ctx.prove('C09.prepare.window', sorted(set(callers)) == ['TransferManager._download_file'] and awaits_between is not None
+              and all('start_transferring' in a for a in on_path) and len(on_path) <= 1,
+              f'the local path is chosen by {sorted(set(callers))}; suspensions between the choice and the creation of the file: {on_path}')
+
+
 def items(src_root, tier):
-    return [('split', None), ('strategies', None), ('chain', None), ('path', None)]
+    return [('split', None), ('strategies', None), ('chain', None), ('path', None), ('window', None)]
 
 
 def run_item(src_root, item, tier):
@@ -581,7 +614,7 @@ def run_item(src_root, item, tier):
     ex = Explorer()
     kind, arg = item
     try:
-        {'split': prove_split, 'strategies': prove_strategies, 'chain': prove_chain, 'path': prove_download_path}[kind](src_root, ex)
+        {'split': prove_split, 'strategies': prove_strategies, 'chain': prove_chain, 'path': prove_download_path, 'window': prove_window}[kind](src_root, ex)
     except Unsupported as e:
         res.errors.append(f'{kind}: unsupported: {e}')
     collect(res, ex)
